@@ -111,7 +111,7 @@ def oracle(P, content0, content1, ecc1, res, recorded):
         if ob != ib:
             ok = hash_of(P.hash, ob) == sh
             if not ok:
-                with common.captured():
+                with common.quiet():
                     par = bytes(man.encode(ob, k=k))
                 rx = ib + sp.ljust(P.mbs - k, b"\0")
                 cw = ob + par
@@ -153,7 +153,7 @@ def gen_scenario(rng, tier):
 
 def run(oc, tier, seed, model_available, escalate):
     rng = random.Random(seed * 553105243 + 4)
-    n = 45 if tier == "quick" else 700
+    n = 30 if tier == "quick" else 700
     if escalate:
         n *= 2
     d = os.path.join(common.scratch(), "c04")
